@@ -78,6 +78,14 @@ class Machine:
         self.explicit_intr = False
 
     # ------------------------------------------------------------ encoding
+    NONE_ITEM = 999       # a put of item 999 into a plain Store puts the object None (an end-of-stream marker, say)
+
+    def encv(self, v, ev):
+        """enc() for the value of event ev: None handed out by a plain Store's get is the item NONE_ITEM."""
+        if v is None and ev is not None and type(ev).__name__ == "StoreGet" and type(getattr(ev, "resource", None)).__name__ == "Store":
+            return V("item", self.NONE_ITEM)
+        return self.enc(v)
+
     def enc(self, v):
         from onl.sim.events import ConditionValue
         from onl.sim.exceptions import Interrupt
@@ -136,7 +144,7 @@ class Machine:
         if obj is not None:
             self.uid_of[id(obj)] = uid
             if probe:
-                obj.callbacks.append(lambda e, uid=uid: self.L("P", uid, e._ok, self.enc(e._value)))
+                obj.callbacks.append(lambda e, uid=uid: self.L("P", uid, e._ok, self.encv(e._value, e)))
         return uid
 
     def resolve(self, o):
@@ -168,7 +176,7 @@ class Machine:
             elif not ev.triggered:
                 out.append({"st": 0, "ok": True, "v": V("none")})
             else:
-                out.append({"st": 2 if ev.processed else 1, "ok": bool(ev._ok), "v": self.enc(ev._value)})
+                out.append({"st": 2 if ev.processed else 1, "ok": bool(ev._ok), "v": self.encv(ev._value, ev)})
         return out
 
     def exists(self, uid):
@@ -218,7 +226,7 @@ class Machine:
                 items = sorted(items)
             out += [len(users)] + [self.uid_of.get(id(u), -1) for u in users]
             out += [len(r.put_queue)] + [self.uid_of.get(id(u), -1) for u in r.put_queue]
-            out += [netlib.ex(getattr(r, "level", 0) / self.rscale.get(i, 1)), len(items)] + [int(x) for x in items] + [len(r.get_queue)]
+            out += [netlib.ex(getattr(r, "level", 0) / self.rscale.get(i, 1)), len(items)] + [self.NONE_ITEM if x is None else int(x) for x in items] + [len(r.get_queue)]
         return out
 
     # ------------------------------------------------------------ ops shared by processes and the top level
@@ -378,7 +386,8 @@ class Machine:
         if k == "put":
             r, kind = self.resources[o["a"]], self.rkinds[o["a"]]
             try:
-                self.reg(r.put(Item(o["b"]) if kind == "fstore" else o["b"] * self.rscale.get(o["a"], 1)), "put")
+                item = Item(o["b"]) if kind == "fstore" else None if (kind == "store" and o["b"] == self.NONE_ITEM) else o["b"] * self.rscale.get(o["a"], 1)
+                self.reg(r.put(item), "put")
             except ValueError:
                 self.L("E", P, False, V("ValueError"))
             return None
@@ -425,7 +434,7 @@ class Machine:
             if ev is not None:
                 try:
                     v = yield ev
-                    self.L("R", pid, True, self.enc(v))
+                    self.L("R", pid, True, self.encv(v, ev))
                 except GeneratorExit:
                     raise
                 except BaseException as e:
@@ -465,7 +474,7 @@ class Machine:
                     return
                 try:
                     r = env.run(until=self.events[o["a"]])
-                    self.L("RET", 0, True, self.enc(r))
+                    self.L("RET", 0, True, self.encv(r, self.events[o["a"]]))
                 except BaseException as e:  # noqa
                     self.L("X", 0, False, self.enc(e))
             elif k == "steps":
@@ -692,6 +701,8 @@ class Chooser:
                     if m.rkinds[r] == "cont":
                         return dict(Z, k=k, a=r, b=rng.choice(g.get("amounts", [1, 1, 2, 3])))
                     if k == "put":
+                        if m.rkinds[r] == "store" and rng.random() < 0.12:
+                            return dict(Z, k=k, a=r, b=Machine.NONE_ITEM)          # the item None
                         return dict(Z, k=k, a=r, b=100 * rng.choice([0, 1, 2]) + len(m.events))
                     f = 0
                     if m.rkinds[r] == "fstore" and m.resources[r].items and rng.random() < 0.6:
